@@ -11,16 +11,24 @@ from harness.core import sp
 
 PID = "C07"
 RULE = ("a case is a tree of dataclasses: every class has 0-2 int/str leaf fields, sometimes a cmd=False field (no "
-        "option; partial / instance entries bind it to a value that differs from the class default) and (down to depth 3) 1-3 subgroup "
-        "fields, each a dict of 2-3 alternatives that are dataclass types, functools.partial objects (keywords on a "
-        "subset of the leaves) or frozen instances; sibling alternatives share field names, 30% of the trees also reuse "
-        "names across levels (clashes, resolved by the conflict resolver); command line = `--opt value` / `--opt=value` "
-        "pairs built from the options of a random selection: subgroup keys (given or left to the declared default), a "
-        "subset of the selected leaves overridden, plus options of unselected alternatives, unknown keys, unknown "
-        "options, abbreviations, non-integer values. Every parse uses a fresh parser (D9 belongs to C08). Non-trivial = "
-        ">= 1 subgroup key given or >= 1 leaf overridden on a tree of depth >= 2, or an unknown-key / foreign-option line; "
-        "distinct by canonical JSON. A second stream drives Union[A, B] sub-command fields end-to-end (real code + "
-        "oracle only); a third compares the outcome-level argparse model with the real argparse on random tables.")
+        "option; partial / instance entries bind it to a value that differs from the class default) and (down to depth "
+        "3) 0-3 subgroup fields (1-3 at the root), each a dict of 1-3 alternatives that are dataclass types, "
+        "functools.partial objects (keywords on a subset of the leaves) or frozen instances (also instances whose "
+        "class has a REQUIRED nested subgroup, given the value of one of its entries); sibling alternatives share field "
+        "names, 30% of the trees also reuse names across levels (clashes, resolved by the conflict resolver); command "
+        "line = `--opt value` / `--opt=value` pairs built from the options of a random selection: subgroup keys (given "
+        "or left to the declared default), a subset of the selected leaves overridden (4% with a leading-dash value), "
+        "plus options of unselected alternatives, unknown keys, unknown options, abbreviations, non-integer values, the "
+        "same option twice with DIFFERENT values (another key / another token: last occurrence wins). Every parse uses "
+        "a fresh parser (D9 belongs to C08). Non-trivial = >= 1 subgroup key given or >= 1 leaf overridden on a tree of "
+        "depth >= 2, or an unknown-key / foreign-option line; distinct by canonical JSON. Oracle paths (tagged): strict "
+        "tree-recursive expectation on statically clash-free trees (any mode); on the others the real parser's own "
+        "option table judges accepted parses under AUTO, and a rejection by the main parse is judged with the table of "
+        "a set-up-only probe (oracle:reject-judged-by-probe); rejections by the rounds themselves on clash trees and "
+        "clash trees under EXPLICIT/NONE are left to the correspondence ops (oracle:*unjudged*). A model answer "
+        "`unmodelled` on a well-shaped case counts as a mismatch. A second stream drives Union[A, B] sub-command "
+        "fields end-to-end (real code + oracle only; default and dash-variant settings on underscore-free names); a "
+        "third compares the outcome-level argparse model with the real argparse on random tables.")
 ASSUMPTIONS = [
     "argparse on `--opt value` pairs: exact option match first, unique-prefix abbreviation when allow_abbrev, last "
     "occurrence wins, type/choices/required/unrecognized errors exit with status 2 (checked by op sg.parse)",
@@ -32,23 +40,31 @@ EXHAUSTIVE = {"quick": False, "thorough": False}
 THOROUGH_ROUNDS = 3   # thorough tier: this many generator passes with derived PRNG states (vcheck)
 MANIFEST = {
     "text": ("Proof (partial). Lean theorems over a model of the rounds of _resolve_subgroups (any nesting depth, induction "
-             "on the number of rounds): every resolved subgroup's key is the last value given under an option string "
-             "registered for it in the choice parser, else its declared default, and is one of its keys; an unknown key "
-             "or a failing round ends the whole parse with status 2; every field wrapper ever created is a field of the "
-             "root or of the alternative chosen at its parent subgroup, with the partial keyword / instance attribute as "
-             "default where there is one; a leaf's value is the last value passed under an option addressing it, else "
-             "that default; an option addressing no active field is rejected; namespace.subgroups equals the chosen keys "
-             "when no option is abbreviated and option strings did not change after registration. Named gaps: the "
-             "unconditional 'reports' statement is refuted (witness: `--mod b` is ignored by the choice parser, which "
-             "forbids abbreviations, but accepted by the main parser: subgroups says b, the value is the default "
-             "alternative); a frozen-instance alternative whose class has a defaulted subgroup field crashes with "
-             "AssertionError (witness); stability of option strings across rounds under name clashes is not proved "
-             "(covered by correspondence). Union[A,B] sub-commands use argparse sub-parsers, which are not modelled: that "
-             "clause is checked end-to-end on the real code only."),
+             "on the number of rounds) and of the main parse: every resolved subgroup's key is the last value given under "
+             "an option registered for it — one of that subgroup's keys — else its declared default key (c07_select, "
+             "c07_select_run); the key's entry is the one whose class is wrapped and instantiated at the destination "
+             "(Chosen); after the rounds every field wrapper is, up to its conflict prefix, a field of the root or of a "
+             "CHOSEN entry, so wrappers of unchosen alternatives are never created (c07_origin, invariant of `round`), with "
+             "the partial keyword / instance attribute as default where there is one (c07_value_defaults, "
+             "c07_value_hidden); destinations are unique for well-formed trees (c07_dests_nodup), hence each leaf's value "
+             "is read off its own action: converted last value passed under an option addressing it, else that default, "
+             "one leaf per active plain field and no other (c07_value_exact, c07_leaf_value); an unknown key ends "
+             "parse_args with status 2 whether the choice parser or only the main parser reads the option "
+             "(c07_unknown_key_run, c07_unknown_key_main_run); an option addressing no active field is rejected "
+             "(c07_foreign_run); namespace.subgroups equals the chosen keys when no option is abbreviated and option "
+             "strings did not change after registration (c07_reports_partial). Named gaps: the unconditional 'reports' "
+             "statement is refuted (witness `--mod kb`); a frozen-instance alternative whose class has a defaulted "
+             "subgroup field crashes with AssertionError (witness); EXPLICIT can crash with ArgumentError (witness); "
+             "ACCEPTANCE of a valid command line is not proved (all value theorems are 'if it returns'; oracle clause "
+             "`accepts` + correspondence); the round loop's fuel (depth+1) is not proved sufficient (an `unmodelled` "
+             "model answer on a well-shaped case is a mismatch); stability of option strings across rounds under name "
+             "clashes is not proved (correspondence). Union[A,B] sub-commands use argparse sub-parsers, which are not "
+             "modelled: that clause is checked end-to-end on the real code only."),
     "note": ("Trusted: Lean kernel + standard axioms; argparse modelled at outcome level on `--opt value` pairs and tied "
              "to the real argparse by op sg.parse; the conflict resolver and option naming are the C03/C10 models, "
-             "reused. Modelled not verified: parsing.py:520-554,599-792, dataclass_wrapper.py:72-190, "
-             "field_wrapper.py:231-276,711-727,797-802. Sub-parsers (field_wrapper.py:995-1028): oracle only."),
+             "reused. Modelled not verified: parsing.py:546-584,629-822, dataclass_wrapper.py:72-190, "
+             "field_wrapper.py:231-276,714-736,802-807. Sub-parsers (field_wrapper.py:1001-1034): oracle only. On clash "
+             "trees the oracle reads option names from the real parser's own table."),
     "technique": "Lean 4 induction over resolution rounds + differential check of _resolve_subgroups / parse_args",
     "design_ref": "DESIGN.md section 5, C07",
 }
@@ -93,6 +109,10 @@ def build_class(spec: dict):
                 elif a["kind"] == "partial":
                     d[a["key"]] = functools.partial(cls, **kw)
                 else:
+                    # attributes of the instance for its REQUIRED subgroup fields: what the named entry produces
+                    for sub_name, sub_key in a.get("inst_subs", []):
+                        entry = cls.__dataclass_fields__[sub_name].metadata["subgroups"][sub_key]
+                        kw[sub_name] = entry() if callable(entry) else entry
                     d[a["key"]] = cls(**kw)
             ann = Union[tuple(classes)] if len(classes) > 1 else classes[0]
             if f.get("default") is None:
@@ -136,6 +156,26 @@ def field_table(parser) -> list[list]:
     return out
 
 
+def probe_table(c: dict, argv: list[str]):
+    """After a rejected parse: run only the set-up (`_preprocessing`: the subgroup rounds + add_arguments) of a FRESH
+    parser on the same command line. Returns None when the rounds themselves reject it, else the final option table
+    with the `required` flag of every field (the oracle judges a wrongful rejection by the main parse with it)."""
+    from simple_parsing.parsing import _flatten_wrappers
+
+    sp.reset_globals()
+    Root = build_class(c["root"])
+    parser = sp.make_parser(dict(c["cfg"], cr=c["mode"]))
+    parser.add_arguments(Root, dest=c["dest"])
+    r = sp.run_outcome(lambda: parser._preprocessing(args=list(argv), namespace=argparse.Namespace()))
+    if r["o"] != "ok":
+        return None
+    out = []
+    for w in _flatten_wrappers(parser._wrappers):
+        for f in w.fields:
+            out.append([f.dest, sorted(f.option_strings), bool(f.is_subgroup), bool(f.arg_options.get("required"))])
+    return out
+
+
 # ------------------------------------------------------------------------------------------------
 # impl
 
@@ -161,6 +201,8 @@ def impl_e2e(c: dict) -> dict:
         r.pop("msg", None)
     else:
         r = {"o": "exit", "code": r["code"], "kind": r.get("kind")}
+        if r["code"] == 2:
+            r["probe"] = probe_table(c, argv)
     sp.reset_globals()
     return r
 
@@ -185,8 +227,11 @@ def impl_rounds(c: dict) -> dict:
         for w in _flatten_wrappers(wrappers):
             for f in w.fields:
                 d = f.default
-                fields.append([f.dest, sorted(f.option_strings),
-                               None if (d is None or d is dataclasses.MISSING) else sp.cv(d)])
+                if dataclasses.is_dataclass(d) and not isinstance(d, type):
+                    dv = {"t": "forced-instance"}     # the enclosing frozen instance's attribute, pushed as default
+                else:
+                    dv = None if (d is None or d is dataclasses.MISSING) else sp.cv(d)
+                fields.append([f.dest, sorted(f.option_strings), dv])
         r.update(resolved=[[k, v] for k, v in chosen.items()], fields=fields)
     elif r["o"] == "raise":
         r.pop("msg", None)
@@ -238,7 +283,7 @@ def build_union_root(c: dict):
 def impl_union(c: dict) -> dict:
     sp.reset_globals()
     Root, _ = build_union_root(c)
-    parser = sp.make_parser(DEFAULT_CFG)
+    parser = sp.make_parser(dict(c.get("cfg") or DEFAULT_CFG, cr=c.get("mode", "AUTO")))
     parser.add_arguments(Root, dest="prog")
     argv = list(c["tokens"])
     r = sp.run_outcome(lambda: parser.parse_args(argv))
@@ -286,6 +331,32 @@ def project(case, obs):
 
 def model_unmodelled(mo):
     return isinstance(mo, dict) and mo.get("o") == "unmodelled"
+
+
+def well_shaped(c: dict) -> bool:
+    """the modelled fragment of command lines (Model/Subgroups.pairOk) and of trees (field names of length >= 2,
+    not starting with `h`: no single-dash options, no abbreviation of --help)"""
+    for o, v in c["argv"]:
+        if not (o.startswith("--") and len(o) > 2 and " " not in o and "=" not in o and not "--help".startswith(o)
+                and not v.startswith("-") and v != "" and v.isascii()):
+            return False
+
+    def names_ok(cls):
+        for f in cls["fields"]:
+            if f["k"] != "hidden" and (len(f["name"]) < 2 or f["name"].startswith("h")):
+                return False
+            if f["k"] == "sub" and not all(names_ok(a["cls"]) for a in f["alts"]):
+                return False
+        return True
+    return names_ok(c["root"])
+
+
+def project_model(case, mo):
+    # The model's round loop has fuel depth+1 and answers `unmodelled` when that runs out (not proved impossible):
+    # on a well-shaped case an `unmodelled` answer is therefore NOT excused but reported as a disagreement.
+    if case["op"] in ("sg.e2e", "sg.rounds") and model_unmodelled(mo) and well_shaped(case["case"]):
+        return {"o": "unmodelled-on-a-modelled-input"}
+    return mo
 
 
 # ------------------------------------------------------------------------------------------------
@@ -453,18 +524,29 @@ def clash_possible(c: dict, opt_of) -> bool:
     return False
 
 
-def has_sub_abbrev(c: dict, obs) -> bool:
-    """some passed option is a strict prefix of a subgroup option string and not itself a registered option"""
+def abbrev_sub_dests(c: dict, obs) -> set:
+    """destinations of the subgroups one of whose option strings is abbreviated on the command line (the passed
+    option is a strict prefix of it and not itself a registered option)"""
+    out = set()
     if obs.get("o") != "ok":
-        return False
+        return out
     allopts = {o for (_, opts, _) in obs["table"] for o in opts}
     for (a, _) in c["argv"]:
         if a in allopts:
             continue
-        for (_, opts, is_sub) in obs["table"]:
+        for (d, opts, is_sub) in obs["table"]:
             if is_sub and any(o.startswith(a) for o in opts):
-                return True
-    return False
+                out.add(d)
+    return out
+
+
+def abbrev_key_signature(c: dict, obs, fail) -> bool:
+    """every destination the failure is about is an abbreviated subgroup's destination or lies below it"""
+    ds = abbrev_sub_dests(c, obs)
+    dests = fail.get("dests")
+    if not ds or not dests:
+        return False
+    return all(any(x == d or x.startswith(d + ".") for d in ds) for x in dests)
 
 
 def tree_valid_pairs(c: dict) -> bool:
@@ -509,6 +591,10 @@ def oracle_e2e(c: dict, obs: dict) -> list[dict]:
                 clause, detail = "accepts", "a command line made of the selected groups' own options was rejected"
             else:
                 leaves, classes, subs = e0[1]
+                osubs = obs["subgroups"] or {}
+                diff_dests = sorted({k for k in set(classes) | set(obs["classes"]) if classes.get(k) != obs["classes"].get(k)}
+                                    | {k for k in set(leaves) | set(obs["leaves"]) if leaves.get(k) != obs["leaves"].get(k)}
+                                    | {k for k in set(subs) | set(osubs) if subs.get(k) != osubs.get(k)})
                 if obs["classes"] != classes:
                     clause = "select"
                     detail = f"classes {obs['classes']} expected {classes}"
@@ -520,11 +606,62 @@ def oracle_e2e(c: dict, obs: dict) -> list[dict]:
                 else:
                     clause = "reports"
                     detail = f"namespace.subgroups {obs['subgroups']} expected {subs}"
-            fails.append({"clause": clause, "detail": detail})
+            fail = {"clause": clause, "detail": detail}
+            if e0[0] == "ok" and obs["o"] == "ok":
+                fail["dests"] = diff_dests
+            fails.append(fail)
         return fails
-    # name clashes (or a dash/BOTH spelling): judge an accepted parse with the real parser's own option table
+    # name clashes (or a dash/BOTH spelling): judge with the real parser's own option table
     if obs["o"] != "ok":
-        return []
+        probe = obs.get("probe")
+        if c["mode"] != "AUTO" or probe is None:
+            return []          # rejected by the rounds themselves (no table to read), or a non-default mode
+        # The rounds accepted the line and the main parse rejected it. That is justified only if some option is not an
+        # exact option string of the final table, a subgroup value is not a key, an int does not convert, or a
+        # required field got no value.
+        owner = {o: (d, is_sub) for (d, opts, is_sub, _) in probe for o in opts}
+        info: dict[str, dict] = {}
+
+        opts_of = {d: opts for (d, opts, _, _) in probe}
+
+        def collect(cls, dest) -> bool:
+            """the fields of the SELECTED entries (key = last value under an exact option of the subgroup, else its
+            declared default); False when the selection cannot be read off"""
+            for f in cls["fields"]:
+                d = f"{dest}.{f['name']}"
+                if f["k"] == "hidden":
+                    continue
+                info[d] = f
+                if f["k"] == "sub":
+                    vals = [v for (a, v) in c["argv"] if a in opts_of.get(d, [])]
+                    key = vals[-1] if vals else f.get("default")
+                    ch = next((a for a in f["alts"] if a["key"] == key), None)
+                    if ch is None or not collect(ch["cls"], d):
+                        return False
+            return True
+        if not collect(c["root"], c["dest"]) or set(info) != set(opts_of):
+            return []
+        given = set()
+        for (a, v) in c["argv"]:
+            if a not in owner:
+                return []
+            d, is_sub = owner[a]
+            f = info.get(d)
+            if f is None:
+                return []
+            given.add(d)
+            if f["k"] == "sub" and v not in [x["key"] for x in f["alts"]]:
+                return []
+            if f["k"] == "leaf" and f["ty"] == "int":
+                try:
+                    int(v)
+                except ValueError:
+                    return []
+        if any(req and d not in given for (d, _, _, req) in probe):
+            return []
+        return [{"clause": "accepts", "detail": "the subgroup rounds accepted the command line, every option is an exact "
+                 "option string of the final parser with a valid value, nothing required is missing — and parse_args "
+                 "rejected it"}]
     if c["mode"] != "AUTO":
         # EXPLICIT renames options that the choice parser already holds under their old spelling (see the open
         # finding C07-explicit-reregister): which option addressed which subgroup in its round cannot be read off the
@@ -548,8 +685,9 @@ def oracle_e2e(c: dict, obs: dict) -> list[dict]:
             d = f"{dest}.{f['name']}"
             if f["k"] == "hidden":
                 if obs["leaves"].get(d) != alt_default(alt, f):
-                    fails.append({"clause": "value", "detail": f"{d} (cmd=False): observed {obs['leaves'].get(d)} "
-                                                               f"expected the chosen entry's {alt_default(alt, f)}"})
+                    fails.append({"clause": "value", "dests": [d],
+                                  "detail": f"{d} (cmd=False): observed {obs['leaves'].get(d)} "
+                                            f"expected the chosen entry's {alt_default(alt, f)}"})
                 continue
             opts = next((o for (dd, o, _) in table if dd == d), None)
             if opts is None:
@@ -560,7 +698,8 @@ def oracle_e2e(c: dict, obs: dict) -> list[dict]:
             if f["k"] == "leaf":
                 want = conv(f["ty"], passed[-1]) if passed else alt_default(alt, f)
                 if obs["leaves"].get(d) != want:
-                    fails.append({"clause": "value", "detail": f"{d}: observed {obs['leaves'].get(d)} expected {want}"})
+                    fails.append({"clause": "value", "dests": [d],
+                                  "detail": f"{d}: observed {obs['leaves'].get(d)} expected {want}"})
             else:
                 keys = [a["key"] for a in f["alts"]]
                 cands = []
@@ -580,7 +719,7 @@ def oracle_e2e(c: dict, obs: dict) -> list[dict]:
                             break
                 if not ok:
                     clause = "select" if obs["classes"].get(d) not in [next(a for a in f["alts"] if a["key"] == g)["cls"]["name"] for g in cands if g in keys] else "reports"
-                    fails.append({"clause": clause, "detail": f"{d}: class {obs['classes'].get(d)} reported {(obs['subgroups'] or {}).get(d)} candidates {cands}"})
+                    fails.append({"clause": clause, "dests": [d], "detail": f"{d}: class {obs['classes'].get(d)} reported {(obs['subgroups'] or {}).get(d)} candidates {cands}"})
     try:
         for (a, _) in c["argv"]:
             if address(a) is None:
@@ -663,15 +802,30 @@ def oracle(case, obs):
 
 
 def chosen_path_has_inst_with_sub(c: dict) -> bool:
-    """some alternative of the tree is a frozen instance (or sits below one) whose class has a subgroup field"""
+    """on a possibly SELECTED path (keys given on the command line under an option spelled `--<name>` / `--….<name>`,
+    or the declared default) there is a frozen-instance entry whose class has a subgroup field with a default key"""
+    def spelled(o: str, name: str) -> bool:
+        for n in (name, name.replace("_", "-")):
+            if o == "--" + n or o.endswith("." + n):
+                return True
+        return False
+
     def walk(cls):
         for f in cls["fields"]:
-            if f["k"] == "sub":
-                for a in f["alts"]:
-                    if a["kind"] == "inst" and any(g["k"] == "sub" and g.get("default") is not None for g in a["cls"]["fields"]):
-                        return True
-                    if walk(a["cls"]):
-                        return True
+            if f["k"] != "sub":
+                continue
+            keys = [a["key"] for a in f["alts"]]
+            given = [v for (o, v) in c["argv"] if spelled(o, f["name"]) and v in keys]
+            # whether the real parser read that option under this spelling is not known after a crash:
+            # a given key and the declared default are both possible selections
+            cands = set(given) | ({f["default"]} if f.get("default") is not None else set())
+            for a in f["alts"]:
+                if a["key"] not in cands:
+                    continue
+                if a["kind"] == "inst" and any(g["k"] == "sub" and g.get("default") is not None for g in a["cls"]["fields"]):
+                    return True
+                if walk(a["cls"]):
+                    return True
         return False
     return walk(c["root"])
 
@@ -697,7 +851,8 @@ FINDINGS = {
         case["op"] == "sg.e2e" and case["case"]["mode"] == "EXPLICIT" and obs.get("o") == "raise"
         and obs.get("exc") == "ArgumentError" and sub_name_thrice(case["case"])),
     "C07-abbrev-key": lambda case, obs, fail: (
-        case["op"] == "sg.e2e" and fail.get("clause") in ("reports", "select", "value") and has_sub_abbrev(case["case"], obs)),
+        case["op"] == "sg.e2e" and fail.get("clause") in ("reports", "select", "value")
+        and abbrev_key_signature(case["case"], obs, fail)),
     "C07-instance-with-subgroup": lambda case, obs, fail: (
         case["op"] == "sg.e2e" and obs.get("o") == "raise" and obs.get("exc") == "AssertionError"
         and chosen_path_has_inst_with_sub(case["case"])),
@@ -741,6 +896,21 @@ def rand_scalar(rng, ty):
     if ty == "int":
         return {"t": "int", "v": str(rng.choice([0, 1, 2, 7, 33, 100, -4]))}
     return {"t": "str", "v": rng.choice(["a", "bb", "q1", "zeta", "x y"])}
+
+
+def entry_constructible(a) -> bool:
+    """the entry yields a value without arguments: an instance is one already; a type / partial must have every
+    plain field defaulted or bound and every subgroup field default-constructible"""
+    if a["kind"] == "inst":
+        return True
+    given = {k for k, _ in a["kw"]}
+    for f in a["cls"]["fields"]:
+        if f["k"] == "leaf":
+            if f["default"] is None and f["name"] not in given:
+                return False
+        elif f["k"] == "sub" and not default_constructible(f):
+            return False
+    return True
 
 
 def default_constructible(sub_field) -> bool:
@@ -794,7 +964,7 @@ def gen_cls(rng, names: Names, depth_left: int, pool: list[tuple[str, str]] | No
             fields.append({"k": "hidden", "name": nm, "ty": ty, "default": rand_scalar(rng, ty)})
     n_sub = 0
     if depth_left > 0:
-        n_sub = rng.choice([1, 1, 2, 3]) if is_root else rng.choice([0, 1, 1, 2])
+        n_sub = rng.choice([1, 1, 2, 3]) if is_root else rng.choice([0, 0, 1, 1, 1, 2, 3])
     for _ in range(n_sub):
         nm = names.fresh(True)
         if nm in used:
@@ -802,7 +972,7 @@ def gen_cls(rng, names: Names, depth_left: int, pool: list[tuple[str, str]] | No
         used.add(nm)
         sibling_pool: list[tuple[str, str]] = []
         alts = []
-        keys = rng.sample(KEYS, rng.choice([2, 2, 3]))
+        keys = rng.sample(KEYS, rng.choice([1, 2, 2, 2, 3]))
         for k in keys:
             kind = rng.choice(["type", "type", "partial", "partial", "inst"])
             cls = gen_cls(rng, names, depth_left - 1, sibling_pool, allow_required=(kind != "inst"))
@@ -814,15 +984,28 @@ def gen_cls(rng, names: Names, depth_left: int, pool: list[tuple[str, str]] | No
                         kw.append([f["name"], other_scalar(rng, f) if f["k"] == "hidden" else rand_scalar(rng, f["ty"])])
             elif kind == "inst":
                 subs_ = [f for f in cls["fields"] if f["k"] == "sub"]
-                # the instance must be constructible: its subgroup fields need a callable default entry
-                ok = all(default_constructible(s) for s in subs_)
-                if not ok or (subs_ and rng.random() < 0.7):
+                # the instance must be constructible: a subgroup field needs a callable default entry, or — when it
+                # declares no default (REQUIRED) — the instance is given the value of one of its entries
+                inst_subs = []
+                ok = True
+                for s_ in subs_:
+                    if default_constructible(s_):
+                        continue
+                    cand = [a_["key"] for a_ in s_["alts"] if entry_constructible(a_)] if s_.get("default") is None else []
+                    if cand:
+                        inst_subs.append([s_["name"], rng.choice(cand)])
+                    else:
+                        ok = False
+                if not ok or (subs_ and not inst_subs and rng.random() < 0.8):
                     kind = "type"
                 else:
                     cls["frozen"] = True
                     for f in leaves:
                         kw.append([f["name"], other_scalar(rng, f) if (f["k"] == "hidden" or rng.random() < 0.6) else f["default"]])
-            alts.append({"key": k, "kind": kind, "kw": kw, "cls": cls})
+            alt = {"key": k, "kind": kind, "kw": kw, "cls": cls}
+            if kind == "inst" and inst_subs:
+                alt["inst_subs"] = inst_subs
+            alts.append(alt)
         default = rng.choice(keys) if rng.random() < 0.85 else None
         fields.append({"k": "sub", "name": nm, "default": default, "alts": alts})
     rng.shuffle(fields)
@@ -832,6 +1015,7 @@ def gen_cls(rng, names: Names, depth_left: int, pool: list[tuple[str, str]] | No
 def selection(rng, c_root, dest, opt_of):
     """a random selection of keys + the options it makes available / leaves unavailable"""
     pairs, foreign, depth_used = [], [], [0]
+    optinfo: dict[str, dict] = {}
 
     def walk(cls, d, depth):
         depth_used[0] = max(depth_used[0], depth)
@@ -844,12 +1028,16 @@ def selection(rng, c_root, dest, opt_of):
             if f["k"] == "leaf":
                 if rng.random() < 0.45 or f["default"] is None and rng.random() < 0.8:
                     v = rng.choice(["5", "12", "77", "0"]) if f["ty"] == "int" else rng.choice(["w", "val", "k9"])
+                    if rng.random() < 0.04:     # a value with a leading dash (outside the model's pair shape)
+                        v = "-3" if f["ty"] == "int" else rng.choice(["-x", "-7"])
                     pairs.append([o, v])
+                    optinfo[o] = f
             else:
                 keys = [a["key"] for a in f["alts"]]
                 if f.get("default") is None or rng.random() < 0.6:
                     k = rng.choice(keys)
                     pairs.append([o, k])
+                    optinfo[o] = f
                 else:
                     k = f["default"]
                 for a in f["alts"]:
@@ -859,7 +1047,7 @@ def selection(rng, c_root, dest, opt_of):
                         for g in a["cls"]["fields"]:
                             foreign.append([opt_of(dd + "." + g["name"], g["name"]), g])
     walk(c_root, dest, 1)
-    return pairs, foreign, depth_used[0]
+    return pairs, foreign, optinfo
 
 
 def tree_case(rng, tier):
@@ -886,7 +1074,7 @@ def tree_case(rng, tier):
     dest = rng.choice(["config", "config", "cfg"])
     c = {"cfg": cfg, "mode": mode, "dest": dest, "root": root}
     naming = naming_for(c) or (lambda d, n: "--" + n)
-    pairs, foreign, _ = selection(rng, root, dest, naming)
+    pairs, foreign, optinfo = selection(rng, root, dest, naming)
     rng.shuffle(pairs)
     kind = rng.random()
     tag = "valid"
@@ -913,10 +1101,25 @@ def tree_case(rng, tier):
         p[1] = rng.choice(["x1", "1.5", "w"])
         tag = "maybe-bad-value"
     elif kind < 0.40 and pairs:
-        pairs.append(copy.deepcopy(rng.choice(pairs)))
+        # the same option twice with DIFFERENT values: the last occurrence must win (another key for a subgroup
+        # option — which changes the selection below it —, another token for a leaf)
+        i = rng.randrange(len(pairs))
+        o, v = pairs[i]
+        f = optinfo.get(o)
+        if f is not None and f["k"] == "sub":
+            others = [a["key"] for a in f["alts"] if a["key"] != v] or [v]
+            nv = rng.choice(others)
+        elif f is not None and f["ty"] == "int":
+            nv = rng.choice([x for x in ["5", "12", "77", "0", "41"] if x != v])
+        else:
+            nv = rng.choice([x for x in ["w", "val", "k9", "other"] if x != v])
+        pairs.insert(rng.choice([i, i + 1, len(pairs)]), [o, nv])
         tag = "repeated"
     c["argv"] = pairs
     c["forms"] = [rng.choice(["sp", "sp", "eq"]) for _ in pairs]
+    for i, (_, v) in enumerate(pairs):
+        if v.startswith("-") and not (v[1:].isdigit() and len(v) > 1):
+            c["forms"][i] = "eq"        # `--opt -x` is not a value for argparse; `--opt=-x` is
     c["gtag"] = tag + ("+clash" if clash else "")
     return c
 
@@ -974,19 +1177,24 @@ def union_case(rng):
         if root_leaves and rng.random() < 0.1:
             toks += ["--verbose", "3"]
     c["tokens"] = toks
+    if rng.random() < 0.4:
+        # non-default parser settings whose spelling of these (underscore-free, clash-free) names is the default
+        # one — so the clause is exercised through them without judging the spelling itself (C10's subject, D22)
+        c["cfg"] = {"dash": rng.choice(["DASH", "UNDERSCORE_AND_DASH"]), "gen": "FLAT", "nest": rng.choice(sp.ALL_NEST)}
+        c["mode"] = rng.choice(["AUTO", "EXPLICIT", "NONE"])
     return {"op": "sg.union", "case": c, "model": False}
 
 
 def gen(rng, tier):
-    n_tree = 1200 if tier == "quick" else 25000
+    n_tree = 1200 if tier == "quick" else 8000
     for i in range(n_tree):
         c = tree_case(rng, tier)
         yield {"op": "sg.e2e", "case": c}
         if i % 3 == 0:
             yield {"op": "sg.rounds", "case": c}
-    for _ in range(400 if tier == "quick" else 6000):
+    for _ in range(400 if tier == "quick" else 2000):
         yield parse_case(rng)
-    for _ in range(200 if tier == "quick" else 4000):
+    for _ in range(200 if tier == "quick" else 1200):
         yield union_case(rng)
 
 
@@ -1022,6 +1230,10 @@ def tags(case, obs):
                 if f["k"] == "sub":
                     for a in f["alts"]:
                         kinds.add(a["kind"])
+                        if a.get("inst_subs"):
+                            kinds.add("inst+required-subgroup")
+                        if len(f["alts"]) == 1:
+                            kinds.add("one-key-dict")
                         if a["kind"] == "inst" and any(g["k"] == "hidden" for g in a["cls"]["fields"]):
                             hidden_inst.append(depth)
                         walk(a["cls"], depth + 1)
@@ -1031,6 +1243,18 @@ def tags(case, obs):
             t.append("inst-with-cmdFalse-attr:depth%d" % max(hidden_inst))
         if case["op"] == "sg.e2e" and obs.get("o") == "ok":
             t.append("resolved:%d" % len(obs["classes"]))
+        if case["op"] == "sg.e2e":
+            naming = naming_for(c)
+            strict = naming is not None and not clash_possible(c, naming)
+            if strict:
+                t.append("oracle:strict")
+            elif obs.get("o") == "ok":
+                t.append("oracle:table" if c["mode"] == "AUTO" else "oracle:unjudged-nonAUTO-clash")
+            elif obs.get("o") == "exit":
+                t.append("oracle:reject-judged-by-probe" if (c["mode"] == "AUTO" and obs.get("probe") is not None)
+                         else "oracle:reject-unjudged")
+        if any(v.startswith("-") for _, v in c["argv"]):
+            t.append("value:leading-dash")
     return t
 
 
